@@ -13,6 +13,7 @@ def run(ck):
     if extra:
         extra(ck, w)
     l1_radix(ck, w)
+    l2_identity_swap(ck, w)
 
 
 DIGITS = ('to_u64_digits', 'to_u32_digits', 'iter_u64_digits', 'iter_u32_digits')
@@ -47,3 +48,36 @@ def l1_radix(ck, w):
                       f'{f["_nid"]}: the fold over {list(reversed(chain))} only uses {sorted(o for o in ops if o)}: the digits are summed without their weight, the '
                       f'rebuilt integer is wrong as soon as there is more than one digit', hirq.fn_loc(f, n))
     ck.floor('C06.L1', 'digit folds', n_sites, 1)
+
+
+def l2_identity_swap(ck, w):
+    """mul_by_constant protects every incomplete routine against the identity base"""
+    from ..core import walk, peel, pat_bindings, callee
+    from ..engines import hirq, valflow
+    ck.rule('C06.L2', 'ForeignEccChip::mul_by_constant documents "the base can be the identity point" and delegates to routines that cannot take the identity '
+                      '(mul_by_u128, msm_by_le_bits -> windowed_msm asserts is_id = 0 on every base): on EVERY branch the base handed to such a routine must be '
+                      'the one swapped through `select(base.is_id, generator, base)`, i.e. depend on base.is_id; the branch for constants above 128 bits passes '
+                      'the raw base, so (r - 1) * identity is unsatisfiable for the honest prover')
+    fs = [f for f in w.all_fns(['circuits']) if f['name'] == 'mul_by_constant' and f['file'].endswith('ecc/foreign/ecc_chip.rs')]
+    if not fs:
+        ck.bad('C06.L2', 'mul_by_constant:anchor', 'ForeignEccChip::mul_by_constant not found (anchor)')
+        return
+    f = fs[0]
+    bp = [b for p in f['params'] for b in pat_bindings(p) if b['n'] == 'base']
+    if not bp:
+        ck.bad('C06.L2', 'mul_by_constant:anchor:base', 'parameter `base` not found (anchor)')
+        return
+    vf = valflow.ValFlow(f, sources=[('base', bp[0]['i'], bp[0].get('t'))], field_sources=[bp[0]['i']])
+    n = 0
+    for node, per_arg in vf.sites.values():
+        c = callee(node) or ''
+        if not c.endswith(('::mul_by_u128', '::msm_by_le_bits', '::windowed_msm', '::msm_by_bounded_scalars')):
+            continue
+        n += 1
+        deps = set()
+        for d in per_arg:
+            deps |= set(d or ())
+        ck.record('C06.L2', f'mul_by_constant|{c.rsplit("::", 1)[-1]}', 'base.is_id' in deps, 'receives the identity-swapped base',
+                  f'ForeignEccChip::mul_by_constant hands the raw `base` to {c.rsplit("::", 1)[-1]} (no select on base.is_id on this branch): that routine rejects the '
+                  f'identity, although the trait documents it as a valid base', hirq.fn_loc(f, node))
+    ck.floor('C06.L2', 'incomplete routines called by mul_by_constant', n, 2)
